@@ -2,7 +2,7 @@
 (* Validates recorded executions of crysp.poly.Poly (C16) against base/PolyVec; same shape as Trace_BitVec. *)
 EXTENDS PolyVec, Json, IOUtils, TLC
 Traces == ndJsonDeserialize(IOEnv.TRACE_FILE)
-VARIABLES tid, i, obj, nbad
+VARIABLES vvTid, vvPos, vvObj, vvBad
 C(name, exp) == [c |-> name, e |-> exp]
 R(v) == [raise |-> FALSE, val |-> v]
 X == [raise |-> TRUE, val |-> <<>>]
@@ -41,10 +41,10 @@ Judge(o, e) ==
                  ELSE IF e.raised # "" THEN <<C("must-not-raise", p.val)>>
                  ELSE IF e.obs # p.val THEN <<C("value", p.val)>> ELSE <<>>)
                 \o (IF ~e.others_unchanged THEN <<C("operands-unchanged", TRUE)>> ELSE <<>>)]
-Init == tid \in 1..Len(Traces) /\ i = 0 /\ obj = Traces[tid].obj0 /\ nbad = 0
-Next == /\ i < Len(Traces[tid].ev)
-        /\ \E j \in {LET e == Traces[tid].ev[i+1] IN Judge(obj, e)} :     \* bound once (an action-level LET would be re-evaluated at every use)
-           /\ obj' = j.obj /\ i' = i + 1 /\ nbad' = nbad + Len(j.bad) /\ UNCHANGED tid
-           /\ (j.bad # <<>> => PrintT(ToJson([tid |-> tid, step |-> i+1, bad |-> j.bad])))
-           /\ (i + 1 = Len(Traces[tid].ev) => PrintT(ToJson([tid |-> tid, done |-> TRUE, nbad |-> nbad'])))
+Init == vvTid \in 1..Len(Traces) /\ vvPos = 0 /\ vvObj = Traces[vvTid].obj0 /\ vvBad = 0
+Next == /\ vvPos < Len(Traces[vvTid].ev)
+        /\ \E j \in {LET e == Traces[vvTid].ev[vvPos+1] IN Judge(vvObj, e)} :     \* bound once (an action-level LET would be re-evaluated at every use)
+           /\ vvObj' = j.obj /\ vvPos' = vvPos + 1 /\ vvBad' = vvBad + Len(j.bad) /\ UNCHANGED vvTid
+           /\ (j.bad # <<>> => PrintT(ToJson([tid |-> vvTid, step |-> vvPos+1, bad |-> j.bad])))
+           /\ (vvPos + 1 = Len(Traces[vvTid].ev) => PrintT(ToJson([tid |-> vvTid, done |-> TRUE, nbad |-> vvBad'])))
 =============================================================================
